@@ -30,25 +30,25 @@ type c07Sub struct {
 	N        int    `json:"n"`
 	Early    int    `json:"early"`
 	Pad      int    `json:"pad,omitempty"`
-	Consumer string `json:"consumer"` // eager | slow | resume | stalled
+	Consumer string `json:"consumer"`       // eager | slow | resume | stalled
 	Bare     bool   `json:"bare,omitempty"` // (item streams) the method's only result is the channel
 	ChanCap  int    `json:"chan_cap,omitempty"`
 }
 
 type c07Case struct {
-	Subs  []c07Sub    `json:"subs"`
-	Unary int         `json:"unary"`
-	Late  int         `json:"late,omitempty"` // unary calls issued only after the stalled streams' handlers have sent everything
+	Subs  []c07Sub `json:"subs"`
+	Unary int      `json:"unary"`
+	Late  int      `json:"late,omitempty"` // unary calls issued only after the stalled streams' handlers have sent everything
 	// Flood > 0: before anything else a subscription is opened whose handler returns a channel of this capacity and
 	// keeps it full for the whole case (an attentive consumer drains it); it is cancelled at the end
 	Flood int `json:"flood,omitempty"`
 	// RevN > 0: additionally a handler on the server subscribes to a stream of RevN elements served by the calling
 	// client (reverse direction), every second element padded to RevPad bytes; the server's request size limit is
 	// RevMaxReq (0 = default 100 MiB), which governs HTTP request bodies, not stream elements
-	RevN      int   `json:"rev_n,omitempty"`
-	RevPad    int   `json:"rev_pad,omitempty"`
-	RevMaxReq int64 `json:"rev_max_req,omitempty"`
-	Rules []*HookRule `json:"rules,omitempty"`
+	RevN      int         `json:"rev_n,omitempty"`
+	RevPad    int         `json:"rev_pad,omitempty"`
+	RevMaxReq int64       `json:"rev_max_req,omitempty"`
+	Rules     []*HookRule `json:"rules,omitempty"`
 }
 
 // anyStream adapts the three element types to one consumer: it yields (seq, ok) per element.
